@@ -23,6 +23,8 @@ def c04(c):
         "descriptors only; real epoll descriptors pass through with one counter increment), the Kern hook of sys.go, rules_epoll.py "
         "(syscall.EpollWait -> verifsys.EpollWait in poller_epoll.go), zz_verif_wake.go (an engine whose poller waits on the emulated epoll; "
         "connections attached through the real addConn / addDialer), the cooperative scheduler overlay/pkg/verifsched (rules_sched.py)",
+        "the gate of Conn.AsyncRead is observed through nbio.VerifReadHook (overlay of component readpath: zz_verif_readpath.go, "
+        "rules_readpath.py): a read event absorbed by the read task that is already running brings no ResetPollerEvent of its own (D40)",
         "Go harness cmd/wake: critical sections are attributed to library functions by the name of the first package-nbio frame on the "
         "acquiring goroutine's stack; the size of a write is the change of (queued + accepted) bytes across its critical section",
     ]
